@@ -52,6 +52,13 @@ class StorageBackend(ABC):
         """Read file contents as bytes"""
         pass
 
+    def make_durable(self, path: str) -> None:
+        """Make an EXISTING file written by somebody else durable: flush its
+        content and persist its directory entry (and those of the directories
+        leading to it). Object stores acknowledge only durable writes, so the
+        default does nothing."""
+        return None
+
     def open_seekable(self, path: str) -> Any:
         """Open `path` as a SEEKABLE binary file object.
 
@@ -226,6 +233,32 @@ class LocalStorageBackend(StorageBackend):
     def open_seekable(self, path: str) -> Any:
         """Local files are already seekable; nothing to wrap."""
         return open(self._resolve_path(path), "rb")
+
+    def make_durable(self, path: str) -> None:
+        """fsync an existing file and every directory from its parent up to the
+        table root (files this backend writes itself get the same treatment in
+        write_file / DataFileWriter.close)."""
+        full_path = self._resolve_path(path)
+        fd = os.open(full_path, os.O_RDONLY)
+        try:
+            os.fsync(fd)
+        finally:
+            os.close(fd)
+        root = self._real_base_path()
+        directory = os.path.dirname(full_path)
+        while True:
+            try:
+                dir_fd = os.open(directory, os.O_RDONLY)
+                try:
+                    os.fsync(dir_fd)
+                finally:
+                    os.close(dir_fd)
+            except (OSError, AttributeError):
+                # Some filesystems/OSes don't support directory fsync
+                pass
+            if directory == root or len(directory) <= len(root):
+                break
+            directory = os.path.dirname(directory)
 
     def write_file(self, path: str, content: bytes) -> None:
         """Atomically write file with fsync for durability.
